@@ -405,7 +405,8 @@ class LoopSpec:
     the syntactically assigned ones."""
 
     def __init__(self, inv, k='k', types=None, extra_havoc=(), facts=(), exit=None, body_post=None, hints=None,
-                 head_hook=None, peel=False, body_post_on_break=True, it=None):
+                 head_hook=None, peel=False, body_post_on_break=True, it=None, must_exhaust=False):
+        self.must_exhaust = must_exhaust         # the property needs every element to be visited: a feasible `break` is a failure
         self.it = it                             # spec-level name of the loop's iterable (e.g. 'BINS')
         self.body_post_on_break = body_post_on_break   # an iteration that ends in `break` is an iteration: body_post is owed
         self.inv = list(inv.items()) if isinstance(inv, dict) else list(inv)
@@ -598,6 +599,10 @@ class Engine:
     def binop(self, op, a, b, node=None):
         a = concretize(a)
         b = concretize(b)
+        if hasattr(a, 'vc_binop'):
+            return a.vc_binop(self, op, b, False, node)
+        if hasattr(b, 'vc_binop'):
+            return b.vc_binop(self, op, a, True, node)
         if not is_sym(a) and not is_sym(b) and not isinstance(a, (SymSeq, Obj)) and not isinstance(b, (SymSeq, Obj)):
             return self.native_binop(op, a, b, node)
         ta, tb = pytype(a), pytype(b)
@@ -779,6 +784,10 @@ class Engine:
         return False
 
     def order(self, op, a, b, node=None):
+        if hasattr(a, 'vc_order'):
+            return a.vc_order(self, op, b, False, node)
+        if hasattr(b, 'vc_order'):
+            return b.vc_order(self, op, a, True, node)
         if not self._has_sym(a) and not self._has_sym(b):
             if a is None or b is None:
                 raise PyRaise('TypeError', 'ordering with None', node=node)
@@ -908,6 +917,10 @@ class Engine:
             return v
         if name in self.builtins():
             return self.builtins()[name]
+        if name == '__file__':
+            return getattr(frame.mod, 'path', None) or '<module>'
+        if name == '__name__':
+            return getattr(frame.mod, 'dotted', '<module>')
         raise Unsupported('unresolved name %r in %s' % (name, frame.func))
 
     _builtins = None
@@ -1614,8 +1627,7 @@ class Engine:
             else:
                 di = i - (len(params) - ndef)
                 if di >= 0:
-                    dfr = Frame('<default>', mod, {}, closure=closure)
-                    env[p] = self.eval(defaults[di], dfr)
+                    env[p] = self.default_value(defaults[di], mod, closure)
                 else:
                     raise PyRaise('TypeError', 'missing argument %s' % p)
         if len(args) > len(params):
@@ -1628,8 +1640,7 @@ class Engine:
             if p.arg in kwargs:
                 env[p.arg] = kwargs.pop(p.arg)
             elif d is not None:
-                dfr = Frame('<default>', mod, {}, closure=closure)
-                env[p.arg] = self.eval(d, dfr)
+                env[p.arg] = self.default_value(d, mod, closure)
             else:
                 raise PyRaise('TypeError', 'missing kw-only argument %s' % p.arg)
         if a.kwarg is not None:
@@ -1637,6 +1648,18 @@ class Engine:
         elif kwargs:
             raise PyRaise('TypeError', 'unexpected keyword arguments %s' % sorted(kwargs))
         return env
+
+    def default_value(self, dnode, mod, closure):
+        """a default argument is evaluated once, when the `def` is executed: every call without that argument gets the same
+        object (one evaluation per explored path = per program run)"""
+        cache = getattr(self, 'module_value_cache', None)
+        key = ('default', id(dnode))
+        if cache is not None and key in cache:
+            return cache[key]
+        v = self.eval(dnode, Frame('<default>', mod, {}, closure=closure))
+        if cache is not None and isinstance(v, (list, dict, set, Obj)):
+            cache[key] = v
+        return v
 
     def call_function(self, f, args, kwargs, node=None):
         kwargs = dict(kwargs)
@@ -2516,6 +2539,8 @@ class Engine:
 
     def loop_break(self, spec, ordinal, fr, k_after):
         """the iteration ended in `break`: the per-iteration postcondition is still owed (k counts this iteration)"""
+        if spec.must_exhaust:
+            self.check('loop.visits_every_element/loop%d' % ordinal, False, kind='body.post')
         if not spec.body_post or not spec.body_post_on_break:
             return
         saved = fr.env.get(spec.k)
